@@ -44,6 +44,7 @@ var (
 	errMissingValue  = errors.New("missing value after object name")
 	errMismatchDelim = errors.New("mismatching structural token for object or array")
 	errMaxDepth      = errors.New("exceeded max depth")
+	errEndBeyondCall = errors.New("cannot end object or array begun outside of the current marshal or unmarshal call")
 
 	errInvalidNamespace = errors.New("object namespace is in an invalid state")
 )
@@ -232,6 +233,12 @@ func appendEscapePointerName(b, name []byte) []byte {
 type stateMachine struct {
 	Stack []stateEntry
 	Last  stateEntry
+
+	// MinDepth is the depth of the JSON value being handled by a
+	// user-provided marshal or unmarshal method or function.
+	// The object or array containing that value cannot be ended by the call.
+	// The zero value implies no restriction.
+	MinDepth int
 }
 
 // reset resets the state machine.
@@ -242,6 +249,7 @@ func (m *stateMachine) reset() {
 		m.Stack = nil
 	}
 	m.Last = stateTypeArray
+	m.MinDepth = 0
 }
 
 // Depth is the current nested depth of JSON objects and arrays.
@@ -325,6 +333,8 @@ func (m *stateMachine) popObject() error {
 		return errMissingValue
 	case !m.Last.isValidNamespace():
 		return errInvalidNamespace
+	case m.Depth() <= m.MinDepth:
+		return errEndBeyondCall
 	default:
 		m.Last = m.Stack[len(m.Stack)-1]
 		m.Stack = m.Stack[:len(m.Stack)-1]
@@ -358,6 +368,8 @@ func (m *stateMachine) popArray() error {
 		return errMismatchDelim
 	case !m.Last.isValidNamespace():
 		return errInvalidNamespace
+	case m.Depth() <= m.MinDepth:
+		return errEndBeyondCall
 	default:
 		m.Last = m.Stack[len(m.Stack)-1]
 		m.Stack = m.Stack[:len(m.Stack)-1]
